@@ -1,6 +1,7 @@
 """Static model of mindsdb_sql.planner.utils.query_traversal: isinstance branches, visit sites, flags,
 store-back targets.  Shared by C13 (walker), C12 (binding order), C10/C11 (what the rewrites can see)."""
 import ast
+import copy
 
 from .source import AnalysisError, norm, dotted, ancestors
 from .pymodel import FieldUse
@@ -19,6 +20,7 @@ class Site:
         self.guarded = False
         self.result_used = True
         self.stores = []        # [(field, sub)] where the call's result ends up
+        self.store_problem = None
         self.index = 0
 
     def label(self):
@@ -52,6 +54,8 @@ class WalkerModel:
         self.branches = []
         self.pre = []
         self.post = []
+        self.norm = Normalizer(tree, WALKER)
+        self.helpers = sorted(self.norm.helpers)
         chain = None
 
         def chain_len(st):
@@ -78,7 +82,9 @@ class WalkerModel:
             cls = self._isinstance_classes(n.test)
             if cls is None:
                 raise AnalysisError(f'query_traversal: branch test at line {n.lineno} is not isinstance(node, ...): {norm(n.test)}')
-            b = Branch(cls, n.test, n.body)
+            b = Branch(cls, n.test, self.norm.block(clone(n.body)))
+            b.ifnode = n
+            renumber(b.body, n)
             self._sites(b)
             self.branches.append(b)
             if len(n.orelse) == 1 and isinstance(n.orelse[0], ast.If):
@@ -113,7 +119,7 @@ class WalkerModel:
             for n in ast.walk(st):
                 if self._is_walker_call(n):
                     calls.append(n)
-        calls.sort(key=lambda c: (c.lineno, c.col_offset))
+        calls.sort(key=lambda c: c._seq)
         for i, c in enumerate(calls):
             s = Site()
             s.call = c
@@ -136,13 +142,14 @@ class WalkerModel:
                 s.kw[name] = extra
             # guard: some enclosing `if` inside the branch tests node.<field>
             for a in ancestors(c):
-                if isinstance(a, ast.If) and a.body is b.body:
+                if a is b.ifnode:
                     break
                 if isinstance(a, ast.If):
                     for x in ast.walk(a.test):
-                        if isinstance(x, ast.Attribute) and isinstance(x.value, ast.Name) and x.value.id == self.node \
-                                and x.attr == s.field:
-                            s.guarded = True
+                        if isinstance(x, (ast.Attribute, ast.Name)):
+                            fo = fu.field_of(x)
+                            if fo is not None and fo[0] == s.field and fo[1] == 'node':
+                                s.guarded = True
             self._stores(b, s, fu)
             b.sites.append(s)
 
@@ -168,11 +175,14 @@ class WalkerModel:
             for n in ast.walk(st):
                 if isinstance(n, (ast.Assign, ast.AugAssign, ast.Expr, ast.Return)):
                     stmts.append(n)
-        stmts.sort(key=lambda n: (n.lineno, n.col_offset))
-        start = c.lineno
+        stmts.sort(key=lambda n: n._seq)
+
+        def last_seq(n):
+            return max(getattr(x, '_seq', 0) for x in ast.walk(n))
+        start = c._seq
         for _ in range(1):
             for n in stmts:
-                if getattr(n, 'end_lineno', n.lineno) < start:
+                if last_seq(n) < start:
                     continue
                 if isinstance(n, ast.Assign):
                     if not mentions(n.value):
@@ -186,6 +196,12 @@ class WalkerModel:
                                 tainted.add(e.id)
                             elif isinstance(e, ast.Subscript) and isinstance(e.value, ast.Name):
                                 tainted.add(e.value.id)
+                            elif isinstance(e, ast.Subscript) and fu.field_of(e.value):
+                                src = fu.field_of(e.value)
+                                stores.append((src[0], src[2], n))
+                                how = self._index_provenance(b, e.slice, fu, src[0])
+                                if how != 'position':
+                                    s.store_problem = how
                             elif isinstance(e, ast.Attribute):
                                 src = fu.field_of(e)
                                 if src:
@@ -210,6 +226,32 @@ class WalkerModel:
                 seen.append((f, sub))
         s.stores = seen
 
+    def _index_provenance(self, b, idx, fu, field):
+        """'position' if the subscript index is the enumerate() position of the visited element, else a description."""
+        if isinstance(idx, ast.Slice):
+            parts = [p for p in (idx.lower, idx.upper) if p is not None]
+            hows = [self._index_provenance(b, p, fu, field) for p in parts]
+            bad = [h for h in hows if h != 'position']
+            return bad[0] if bad else 'position'
+        if isinstance(idx, ast.BinOp):
+            hows = [self._index_provenance(b, p, fu, field) for p in (idx.left, idx.right) if not isinstance(p, ast.Constant)]
+            bad = [h for h in hows if h != 'position']
+            return bad[0] if bad else 'position'
+        if isinstance(idx, ast.Name):
+            if fu.index_vars.get(idx.id) == field:
+                return 'position'
+            for st in b.body:
+                for n in ast.walk(st):
+                    if isinstance(n, ast.Assign) and len(n.targets) == 1 and isinstance(n.targets[0], ast.Name) \
+                            and n.targets[0].id == idx.id:
+                        v = n.value
+                        if isinstance(v, ast.Call) and isinstance(v.func, ast.Attribute) and v.func.attr == 'index':
+                            return ('the slot is found by an equality search (`' + norm(v) + '`): ASTNode.__eq__ is structural, so '
+                                    'an earlier structurally equal sibling is replaced instead of the visited node')
+                        return 'the slot index `' + norm(v) + '` is not the position of the visited element'
+            return f'the slot index `{idx.id}` is not the position of the visited element'
+        return f'the slot index `{norm(idx)}` is not the position of the visited element'
+
     def branch_for(self, model, ci):
         """First branch (in chain order) whose isinstance test accepts class ci."""
         for b in self.branches:
@@ -217,6 +259,214 @@ class WalkerModel:
                 if cn != '<list>' and model.is_subclass(ci, cn):
                     return b
         return None
+
+
+
+
+def clone(n):
+    """deep copy of an ast subtree that does not follow the _parent back-links"""
+    if isinstance(n, ast.AST):
+        new = n.__class__()
+        for fld in n._fields:
+            if hasattr(n, fld):
+                setattr(new, fld, clone(getattr(n, fld)))
+        for a in ('lineno', 'col_offset', 'end_lineno', 'end_col_offset'):
+            if hasattr(n, a):
+                setattr(new, a, getattr(n, a))
+        return new
+    if isinstance(n, list):
+        return [clone(x) for x in n]
+    return n
+
+
+# ---- normalisation: inline same-module helpers, unroll loops over literal tuples, fold getattr/setattr ----
+
+class _Subst(ast.NodeTransformer):
+    def __init__(self, mapping, kwargs_name=None, kwargs=None):
+        self.mapping = mapping
+        self.kwargs_name = kwargs_name
+        self.kwargs = kwargs or []
+
+    def visit_Name(self, n):
+        if n.id in self.mapping:
+            return clone(self.mapping[n.id])
+        return n
+
+    def visit_Call(self, n):
+        self.generic_visit(n)
+        if self.kwargs_name:
+            new_kw = []
+            for k in n.keywords:
+                if k.arg is None and isinstance(k.value, ast.Name) and k.value.id == self.kwargs_name:
+                    new_kw.extend(clone(self.kwargs))
+                else:
+                    new_kw.append(k)
+            n.keywords = new_kw
+        return n
+
+
+class _Fold(ast.NodeTransformer):
+    def visit_Call(self, n):
+        self.generic_visit(n)
+        if isinstance(n.func, ast.Name) and n.func.id == 'getattr' and len(n.args) == 2 and isinstance(n.args[1], ast.Constant) \
+                and isinstance(n.args[1].value, str):
+            return ast.copy_location(ast.Attribute(value=n.args[0], attr=n.args[1].value, ctx=ast.Load()), n)
+        return n
+
+    def visit_Expr(self, n):
+        self.generic_visit(n)
+        v = n.value
+        if isinstance(v, ast.Call) and isinstance(v.func, ast.Name) and v.func.id == 'setattr' and len(v.args) == 3 \
+                and isinstance(v.args[1], ast.Constant) and isinstance(v.args[1].value, str):
+            tgt = ast.Attribute(value=v.args[0], attr=v.args[1].value, ctx=ast.Store())
+            return ast.copy_location(ast.Assign(targets=[tgt], value=v.args[2]), n)
+        return n
+
+
+def _assigned_names(fn):
+    out = set()
+    for n in ast.walk(fn):
+        if isinstance(n, ast.Name) and isinstance(n.ctx, ast.Store):
+            out.add(n.id)
+    return out
+
+
+class Normalizer:
+    def __init__(self, module_tree, walker_name):
+        self.helpers = {}
+        for n in module_tree.body:
+            if isinstance(n, ast.FunctionDef) and n.name != walker_name:
+                if any(isinstance(x, ast.Call) and isinstance(x.func, ast.Name) and x.func.id == walker_name for x in ast.walk(n)):
+                    self.helpers[n.name] = n
+        self.uid = 0
+
+    def _inline(self, call):
+        """statements of the helper body with parameters substituted; the helper's `return X` becomes `_ret = X`."""
+        h = self.helpers[call.func.id]
+        a = h.args
+        if a.vararg or a.posonlyargs or a.kwonlyargs:
+            raise AnalysisError(f'helper {h.name}: unmodelled signature')
+        params = [p.arg for p in a.args]
+        if len(call.args) > len(params):
+            raise AnalysisError(f'helper {h.name}: too many positional arguments')
+        mapping = {}
+        for p, v in zip(params, call.args):
+            mapping[p] = v
+        kws = []
+        for k in call.keywords:
+            if k.arg in params:
+                mapping[k.arg] = k.value
+            elif k.arg is not None:
+                kws.append(k)
+            else:
+                raise AnalysisError(f'helper {h.name}: ** argument at call site')
+        defaults = dict(zip(params[len(params) - len(a.defaults):], a.defaults))
+        for p in params:
+            if p not in mapping:
+                if p in defaults:
+                    mapping[p] = defaults[p]
+                else:
+                    raise AnalysisError(f'helper {h.name}: missing argument {p}')
+        if kws and not a.kwarg:
+            raise AnalysisError(f'helper {h.name}: unexpected keyword arguments')
+        self.uid += 1
+        # locals of the helper are renamed to stay unique
+        ren = {}
+        for nm in _assigned_names(h):
+            if nm not in params:
+                ren[nm] = ast.Name(id=f'{nm}__h{self.uid}', ctx=ast.Load())
+        reassigned = [p for p in params if p in _assigned_names(h)]
+        if reassigned:
+            raise AnalysisError(f'helper {h.name}: reassigns its parameter {reassigned[0]}')
+        body = clone(h.body)
+        body = [s for s in body if not (isinstance(s, ast.Expr) and isinstance(s.value, ast.Constant))]
+
+        class Ren(ast.NodeTransformer):
+            def visit_Name(self_, n):
+                if n.id in ren:
+                    return ast.Name(id=ren[n.id].id, ctx=n.ctx)
+                return n
+        out = []
+        retname = f'_ret__h{self.uid}'
+        for st in body:
+            st = Ren().visit(st)
+            st = _Subst(mapping, a.kwarg.arg if a.kwarg else None, kws).visit(st)
+            out.append(st)
+        for st in out:
+            for n in ast.walk(st):
+                for fld, val in ast.iter_fields(n):
+                    if isinstance(val, list):
+                        for i, x in enumerate(val):
+                            if isinstance(x, ast.Return):
+                                val[i] = ast.Assign(targets=[ast.Name(id=retname, ctx=ast.Store())],
+                                                    value=x.value or ast.Constant(value=None))
+        out = [ast.Assign(targets=[ast.Name(id=retname, ctx=ast.Store())], value=s.value or ast.Constant(value=None))
+               if isinstance(s, ast.Return) else s for s in out]
+        return out, retname
+
+    def _expand_stmt(self, st):
+        """-> list of statements replacing st"""
+        # helper call as a statement / assigned / returned
+        call = None
+        if isinstance(st, (ast.Expr, ast.Assign, ast.Return)) and isinstance(st.value, ast.Call) \
+                and isinstance(st.value.func, ast.Name) and st.value.func.id in self.helpers:
+            call = st.value
+        if call is not None:
+            body, ret = self._inline(call)
+            body = self.block(body)
+            if isinstance(st, ast.Assign):
+                body.append(ast.Assign(targets=st.targets, value=ast.Name(id=ret, ctx=ast.Load())))
+            elif isinstance(st, ast.Return):
+                body.append(ast.Return(value=ast.Name(id=ret, ctx=ast.Load())))
+            for b in body:
+                for n in ast.walk(b):
+                    if not hasattr(n, 'lineno') or True:
+                        n.lineno = st.lineno
+                        n.end_lineno = getattr(st, 'end_lineno', st.lineno)
+                        n.col_offset = getattr(st, 'col_offset', 0)
+            return body
+        for n in ast.walk(st):
+            if n is not st and isinstance(n, ast.Call) and isinstance(n.func, ast.Name) and n.func.id in self.helpers \
+                    and not isinstance(st, (ast.If, ast.For, ast.While, ast.With, ast.Try)):
+                raise AnalysisError(f'line {st.lineno}: helper {n.func.id} is called inside an expression - not modelled')
+        if isinstance(st, ast.For) and isinstance(st.iter, (ast.Tuple, ast.List)) and st.iter.elts and \
+                all(isinstance(e, ast.Constant) for e in st.iter.elts) and isinstance(st.target, ast.Name) and not st.orelse \
+                and not any(isinstance(x, (ast.Break, ast.Continue)) for x in ast.walk(st)):
+            out = []
+            for e in st.iter.elts:
+                body = clone(st.body)
+                body = [_Subst({st.target.id: e}).visit(b) for b in body]
+                out.extend(self.block(body))
+            return out
+        for fld in ('body', 'orelse', 'finalbody'):
+            if hasattr(st, fld) and isinstance(getattr(st, fld), list) and not isinstance(st, (ast.FunctionDef, ast.ClassDef)):
+                setattr(st, fld, self.block(getattr(st, fld)))
+        if isinstance(st, ast.Try):
+            for h in st.handlers:
+                h.body = self.block(h.body)
+        return [st]
+
+    def block(self, stmts):
+        out = []
+        for st in stmts:
+            for x in self._expand_stmt(st):
+                x = _Fold().visit(x)
+                out.append(x)
+        return out
+
+
+def renumber(stmts, parent):
+    """fresh _parent links and a total execution-order key _seq for a normalised statement list"""
+    seq = [0]
+
+    def go(n, par):
+        n._parent = par
+        seq[0] += 1
+        n._seq = seq[0]
+        for c in ast.iter_child_nodes(n):
+            go(c, n)
+    for st in stmts:
+        go(st, parent)
 
 
 _cache = {}
